@@ -461,4 +461,100 @@ theorem C12_chars_missing_delim_table (o : Opts) (cs : List Chunk) (preB postB :
       C12_missing_delim_table o hv pre post n btx es [] seen2 rest1 s1 f w1 [] [] true hw1 H.wfRun (nil_seen o) hname hfresh hwv hpost
         hseen2 (by omega) (Or.inr hterm) (fun _ => hterm) hF1)
 
+
+/-! ### the table-key classes whose defect is a whole token (Props/C12Lex) — any entries before and behind inside the table -/
+
+/-- **C12_chars_table_missing_value** — a table key that is not followed by a value.  One report, CIF_MISSING_VALUE; the content is
+    that of the document in which the key has the unknown value. -/
+theorem C12_chars_table_missing_value (o : Opts) (cs : List Chunk) (preB postB : List Block) (bc : Str) (pre post : List Item)
+    (n btx : Str) (epre epost : List (Str × Presentation × Val)) (k : Str) (kp : Presentation) (seen2 : List Str)
+    (H : ItemHost o cs preB postB bc pre post ((.name, n) :: (.otable, btx) ::
+        (entriesToks epre ++ ([(TokType.key, k)] ++ (entriesToks epost ++ [(.ctable, [125])])))))
+    (hname : wfName n = true) (hfresh : o.norm n ∉ normNames o (denoteItems o.dia o.normKey pre []))
+    (hepre : wfEntries o epre = true) (hepost : wfEntries o epost = true) (hk0 : noNul k = true) (hkd : hasDisallowed k = false)
+    (hpost : wfItems o post seen2 = true)
+    (hseen2 : ∀ x ∈ normNames o (denoteItems o.dia o.normKey (pre ++ [.item n (.tbl (epre ++ [(k, kp, Val.unk)] ++ epost))]) []), x ∈ seen2) :
+    OneReport o cs CIF_MISSING_VALUE
+      (preB ++ [plainBlock bc (pre ++ [.item n (.tbl (epre ++ [(k, kp, Val.unk)] ++ epost))] ++ post)] ++ postB) := by
+  have hl := szEntries_len epre
+  refine items_class_doc H _ CIF_MISSING_VALUE (szEntries epre + szEntries epost + 0 + 2 + 2 * epre.length + 3)
+    (by
+      rw [Lemmas.WriterChunks.szEntries_toks epre, Lemmas.WriterChunks.szEntries_toks epost] at *
+      simp only [List.length_cons, List.length_append, List.length_nil]; omega)
+    (allPacked_run o pre post _ seen2 H.wfRun hpost (allPacked_item o n _)) ?_
+  intro hv rest1 s1 w1 f hw1 hf hfol hF1
+  have hterm := blockFollow_term hfol
+  have := C12_table_missing_value o hv pre post n btx epre epost k kp [] seen2 rest1 s1 f w1 [] [] true hw1 H.wfRun (nil_seen o) hname hfresh
+        hepre hepost hk0 hkd hpost hseen2 (by omega) (fun _ => hterm) hF1
+  simpa using this
+
+/-- **C12_chars_missing_key** — a delimited string, text field, list or table without key inside a table.  One report,
+    CIF_MISSING_KEY; the content is that of the document without that value. -/
+theorem C12_chars_missing_key (o : Opts) (cs : List Chunk) (preB postB : List Block) (bc : Str) (pre post : List Item)
+    (n btx : Str) (epre epost : List (Str × Presentation × Val)) (v : Val) (seen2 : List Str)
+    (H : ItemHost o cs preB postB bc pre post ((.name, n) :: (.otable, btx) ::
+        (entriesToks epre ++ ((valToks v) ++ (entriesToks epost ++ [(.ctable, [125])])))))
+    (hname : wfName n = true) (hfresh : o.norm n ∉ normNames o (denoteItems o.dia o.normKey pre []))
+    (hepre : wfEntries o epre = true) (hepost : wfEntries o epost = true) (hnb : notBare v = true) (hwv : wfVal o v = true)
+    (hpost : wfItems o post seen2 = true)
+    (hseen2 : ∀ x ∈ normNames o (denoteItems o.dia o.normKey (pre ++ [.item n (.tbl (epre ++ epost))]) []), x ∈ seen2) :
+    OneReport o cs CIF_MISSING_KEY (preB ++ [plainBlock bc (pre ++ [.item n (.tbl (epre ++ epost))] ++ post)] ++ postB) := by
+  have hl := szEntries_len epre
+  refine items_class_doc H _ CIF_MISSING_KEY (szEntries epre + szEntries epost + szVal v + 1 + 2 * epre.length + 3)
+    (by
+      rw [Lemmas.WriterChunks.szEntries_toks epre, Lemmas.WriterChunks.szEntries_toks epost, Lemmas.WriterChunks.szVal_toks] at *
+      simp only [List.length_cons, List.length_append, List.length_nil]; omega)
+    (allPacked_run o pre post _ seen2 H.wfRun hpost (allPacked_item o n _)) ?_
+  intro hv rest1 s1 w1 f hw1 hf hfol hF1
+  have hterm := blockFollow_term hfol
+  have := C12_missing_key o hv pre post n btx epre epost v [] seen2 rest1 s1 f w1 [] [] true hw1 H.wfRun (nil_seen o) hname
+        hfresh hepre hepost hnb hwv hpost (by simpa using hseen2) (by omega) (fun _ => hterm) hF1
+  simpa using this
+
+/-- **C12_chars_missing_key_word** — a whitespace-delimited word without colon inside a table.  One report, CIF_MISSING_KEY; the
+    content is that of the document without the word. -/
+theorem C12_chars_missing_key_word (o : Opts) (cs : List Chunk) (preB postB : List Block) (bc : Str) (pre post : List Item)
+    (n btx : Str) (epre epost : List (Str × Presentation × Val)) (tx : Str) (seen2 : List Str)
+    (H : ItemHost o cs preB postB bc pre post ((.name, n) :: (.otable, btx) ::
+        (entriesToks epre ++ ([(TokType.value, tx)] ++ (entriesToks epost ++ [(.ctable, [125])])))))
+    (hname : wfName n = true) (hfresh : o.norm n ∉ normNames o (denoteItems o.dia o.normKey pre []))
+    (hepre : wfEntries o epre = true) (hepost : wfEntries o epost = true) (hhead : tx.head? ≠ some colon) (hcolon : colonIdx tx = none)
+    (hpost : wfItems o post seen2 = true)
+    (hseen2 : ∀ x ∈ normNames o (denoteItems o.dia o.normKey (pre ++ [.item n (.tbl (epre ++ epost))]) []), x ∈ seen2) :
+    OneReport o cs CIF_MISSING_KEY (preB ++ [plainBlock bc (pre ++ [.item n (.tbl (epre ++ epost))] ++ post)] ++ postB) := by
+  have hl := szEntries_len epre
+  refine items_class_doc H _ CIF_MISSING_KEY (szEntries epre + szEntries epost + 0 + 1 + 2 * epre.length + 3)
+    (by
+      rw [Lemmas.WriterChunks.szEntries_toks epre, Lemmas.WriterChunks.szEntries_toks epost] at *
+      simp only [List.length_cons, List.length_append, List.length_nil]; omega)
+    (allPacked_run o pre post _ seen2 H.wfRun hpost (allPacked_item o n _)) ?_
+  intro hv rest1 s1 w1 f hw1 hf hfol hF1
+  have hterm := blockFollow_term hfol
+  have := C12_missing_key_word o hv pre post n btx epre epost tx [] seen2 rest1 s1 f w1 [] [] true hw1 H.wfRun (nil_seen o)
+        hname hfresh hepre hepost hhead hcolon hpost (by simpa using hseen2) (by omega) (fun _ => hterm) hF1
+  simpa using this
+
+/-- **C12_chars_null_key** — a colon standing alone in key position, with the value behind it.  One report, CIF_NULL_KEY; the
+    content is that of the document without that entry. -/
+theorem C12_chars_null_key (o : Opts) (cs : List Chunk) (preB postB : List Block) (bc : Str) (pre post : List Item)
+    (n btx : Str) (epre epost : List (Str × Presentation × Val)) (v : Val) (seen2 : List Str)
+    (H : ItemHost o cs preB postB bc pre post ((.name, n) :: (.otable, btx) ::
+        (entriesToks epre ++ (((TokType.value, [colon]) :: valToks v) ++ (entriesToks epost ++ [(.ctable, [125])])))))
+    (hname : wfName n = true) (hfresh : o.norm n ∉ normNames o (denoteItems o.dia o.normKey pre []))
+    (hepre : wfEntries o epre = true) (hepost : wfEntries o epost = true) (hwv : wfVal o v = true)
+    (hpost : wfItems o post seen2 = true)
+    (hseen2 : ∀ x ∈ normNames o (denoteItems o.dia o.normKey (pre ++ [.item n (.tbl (epre ++ epost))]) []), x ∈ seen2) :
+    OneReport o cs CIF_NULL_KEY (preB ++ [plainBlock bc (pre ++ [.item n (.tbl (epre ++ epost))] ++ post)] ++ postB) := by
+  have hl := szEntries_len epre
+  refine items_class_doc H _ CIF_NULL_KEY (szEntries epre + szEntries epost + szVal v + 2 + 2 * epre.length + 3)
+    (by
+      rw [Lemmas.WriterChunks.szEntries_toks epre, Lemmas.WriterChunks.szEntries_toks epost, Lemmas.WriterChunks.szVal_toks] at *
+      simp only [List.length_cons, List.length_append, List.length_nil]; omega)
+    (allPacked_run o pre post _ seen2 H.wfRun hpost (allPacked_item o n _)) ?_
+  intro hv rest1 s1 w1 f hw1 hf hfol hF1
+  have hterm := blockFollow_term hfol
+  have := C12_null_key o hv pre post n btx epre epost v [] seen2 rest1 s1 f w1 [] [] true hw1 H.wfRun (nil_seen o) hname
+        hfresh hepre hepost hwv hpost (by simpa using hseen2) (by omega) (fun _ => hterm) hF1
+  simpa using this
+
 end CifModel.Props
